@@ -18,7 +18,7 @@ const P2: u32 = 0xA1B2C3;
 fn level(_t: Tier) -> Level {
     Level {
         category: "exploration",
-        rule: "digit strings of every length 0..64 cut from three valid frames; every DF 0..31 at 14/26/28/40 digits in matching and mismatching length; for each bare string every single insertion position x 14-symbol decoration alphabet (pairs of positions for a 3-symbol alphabet in thorough), case variants, trailing CR, 12-digit prefix; each as a one-line run of the real reader on an empty and on a populated table (options default and -U); distinct_nontrivial = distinct (digit count, DF, verdict, decoration class) outcomes",
+        rule: "digit strings of every length 0..64 cut from three valid frames; every DF 0..31 at 14/26/28/40 digits in matching and mismatching length; every digit count behind each leading non-hex ASCII character; for each bare string every single insertion position x 14-symbol decoration alphabet (every non-hex ASCII character at the first, second, 13th, middle and last position) (pairs of positions for a 3-symbol alphabet in thorough), case variants, trailing CR, 12-digit prefix; each as a one-line run of the real reader on an empty and on a populated table (options default and -U); distinct_nontrivial = distinct (digit count, DF, verdict, decoration class) outcomes",
         assumptions: vec![
             "acceptance rule and reference address computed independently (refmodel::accept)".into(),
             "for DFs other than 0/4/5/11/16/17/18/20/21 the statements define no address: only no-crash, decoration invariance and length/DF agreement are judged".into(),
@@ -32,6 +32,7 @@ fn gate(p: &Partial, t: Tier) -> Result<(), String> {
     super::need(p, "rejected-line", 500)?;
     super::need(p, "decorated-equal", 5000)?;
     super::need(p, "length-df-mismatch", 100)?;
+    super::need(p, "aged-table-junk-stream", 4)?;
     Ok(())
 }
 
@@ -189,7 +190,12 @@ fn bare_strings() -> Vec<Vec<u8>> {
     v
 }
 
-const DECOR: [&str; 14] = ["*", "@", ";", " ", "\t", "\r", "-", ":", "g", "G", "x", "\u{e9}", "\u{ff10}", "\0"];
+/// every ASCII character that is not a hexadecimal digit (and not LF), plus four multi-byte ones
+fn decor() -> Vec<String> {
+    let mut v: Vec<String> = (0u8..128).filter(|b| !b.is_ascii_hexdigit() && *b != b'\n').map(|b| (b as char).to_string()).collect();
+    v.extend(["\u{e9}".to_string(), "\u{ff10}".to_string(), "\u{20ac}".to_string(), "\u{1d11e}".to_string()]);
+    v
+}
 
 fn insert(bare: &[u8], pos: usize, d: &str) -> Vec<u8> {
     let mut v = bare[..pos].to_vec();
@@ -223,6 +229,26 @@ fn run(ctx: &mut Ctx) {
                 judge_line(ctx, &env, cfg, &pl, "length-sweep+prefix");
             }
         }
+        // S1b: every digit count 0..64 behind each leading non-hex ASCII character (framing markers
+        // such as '*', '@', '<', ':' must never change which digit counts are frames)
+        for (li, lead) in decor().iter().enumerate() {
+            job += 1;
+            if !ctx.mine(job) {
+                continue;
+            }
+            let p = &pats[li % pats.len()];
+            for n in 0..=64usize {
+                let mut line: Vec<u8> = lead.as_bytes().to_vec();
+                line.extend(p.iter().cycle().take(n));
+                line.push(b';');
+                judge_line(ctx, &env, cfg, &line, "leading-symbol");
+            }
+            // and in front of a valid long frame with 12 + 2 extra digits (42 digits: not a frame)
+            let mut l42: Vec<u8> = lead.as_bytes().to_vec();
+            l42.extend_from_slice(b"0123456789AB7F");
+            l42.extend_from_slice(&pats[0]);
+            judge_line(ctx, &env, cfg, &l42, "leading-symbol-42");
+        }
         // S2: every DF x both lengths x with/without prefix
         for df in 0..32u32 {
             for long in [false, true] {
@@ -243,8 +269,18 @@ fn run(ctx: &mut Ctx) {
                 if !ctx.mine(job) {
                     continue;
                 }
-                for d in DECOR {
-                    judge_decorated(ctx, &env, cfg, &bare, &insert(&bare, pos, d), "single");
+                // every position gets the 14 classic symbols; the first, second, middle and last position get
+                // every non-hex ASCII character
+                let all = decor();
+                let classic = ["*", "@", ";", " ", "\t", "\r", "-", ":", "g", "G", "x", "\u{e9}", "\u{ff10}", "\0"];
+                if pos <= 1 || pos == bare.len() || pos == bare.len() / 2 || pos == 12 {
+                    for d in &all {
+                        judge_decorated(ctx, &env, cfg, &bare, &insert(&bare, pos, d), "single");
+                    }
+                } else {
+                    for d in classic {
+                        judge_decorated(ctx, &env, cfg, &bare, &insert(&bare, pos, d), "single");
+                    }
                 }
                 if ctx.tier.thorough() {
                     for pos2 in pos..=bare.len() {
@@ -275,6 +311,29 @@ fn run(ctx: &mut Ctx) {
             }
         }
     }
+    // a table holding an expired aircraft, the table being redrawn after every line: 80 lines that are
+    // not frames must leave it untouched (nothing but an accepted frame may trigger any table change)
+    job += 1;
+    if ctx.mine(job) {
+        let mut aged = env.pop.clone();
+        aged[0].tick(1_000_000);
+        let junk: Vec<Vec<u8>> = (0..80).map(|k| match k % 4 { 0 => b"hello".to_vec(), 1 => pats[0][..27].to_vec(), 2 => vec![], _ => b"8D4CA2D6".to_vec() }).collect();
+        for opts in [&["-i", "", "--update=-1"][..], &["-i", "aAews", "--update=-1", "-c"][..], &["-i", "", "--update=-1", "-d", "1", "-U"][..], &[][..]] {
+            let cfg = Cfg::new(opts);
+            let t = restore(&aged);
+            let o = run_file(&cfg, &join_lines(&junk), &t);
+            ctx.eval();
+            ctx.count("aged-table-junk-stream");
+            if !o.is_ok() || snapshot(&t) != aged {
+                ctx.violation(
+                    "C02/rejected-changes-table/aged",
+                    &cfg.label(),
+                    || format!("80 lines that are not frames, options [{}]: the table holding a long-silent aircraft changed ({} -> {} rows)", cfg.label(), aged.len(), snapshot(&t).len()),
+                    || json!({"aged": true, "cfg": cfg.opts}),
+                );
+            }
+        }
+    }
     ctx.sample(|| json!({"line": "*8d4ca2d6...;", "rule": "same table as the bare upper-case digits"}));
     ctx.sample(|| json!({"line": String::from_utf8_lossy(&pats[0][..14]), "expected": "rejected: 14 digits announcing DF17"}));
     ctx.bound("digit counts", "0..64 (x3 patterns, with and without 12-digit prefix)");
@@ -284,6 +343,23 @@ fn run(ctx: &mut Ctx) {
 
 fn replay(ctx: &mut Ctx, case: &Value) {
     let env = Env { pop: populated() };
+    if case.get("aged").is_some() {
+        let opts: Vec<String> = case.get("cfg").and_then(|c| c.as_array()).map(|a| a.iter().filter_map(|x| x.as_str().map(String::from)).collect()).unwrap_or_default();
+        let o: Vec<&str> = opts.iter().map(|s| s.as_str()).collect();
+        let cfg = Cfg::new(&o);
+        let mut aged = env.pop.clone();
+        aged[0].tick(1_000_000);
+        let p0 = frames::df17(5, A, frames::me_ident(4, 3, frames::callsign_codes("EIN45F"))).hex().into_bytes();
+        let junk: Vec<Vec<u8>> = (0..80).map(|k| match k % 4 { 0 => b"hello".to_vec(), 1 => p0[..27].to_vec(), 2 => vec![], _ => b"8D4CA2D6".to_vec() }).collect();
+        let t = restore(&aged);
+        let oc = run_file(&cfg, &join_lines(&junk), &t);
+        let same = snapshot(&t) == aged;
+        crate::run::say(&format!("80 non-frame lines under [{}]: outcome {}, table unchanged: {same}", cfg.label(), oc.label()));
+        if !oc.is_ok() || !same {
+            ctx.violation("C02/rejected-changes-table/aged", "replay", || "table changed".into(), || case.clone());
+        }
+        return;
+    }
     let bytes = |k: &str| -> Option<Vec<u8>> { case.get(k)?.as_array().map(|a| a.iter().filter_map(|x| x.as_u64().map(|b| b as u8)).collect()) };
     let opts: Vec<String> = case.get("cfg").and_then(|c| c.as_array()).map(|a| a.iter().filter_map(|x| x.as_str().map(String::from)).collect()).unwrap_or_default();
     let o: Vec<&str> = opts.iter().map(|s| s.as_str()).collect();
